@@ -111,6 +111,11 @@ def _systems():
     S.append(("effects-factory-chain", [effc, ("ds", "user", {"params": [effc, ("opt", "B", ("val", 0))], "factory": "chain"})], [A3, B3]))
     ncc = ("ds", "ncc", {"params": [inner], "cache": "none", "effects": ["en"], "factory": "chain"})
     S.append(("nocache-factory-chain", [("ds", "top3", {"params": [ncc, inner]}), ncc], [A3]))
+    # a body that works on its argument in place (sorts / pops / appends): the caller's dictionary and the
+    # cache key are not affected by what a body does to what it was given
+    mut = ("ds", "f_mutate", {"params": [("opt", "M")]})
+    S.append(("mutating-body", [("ds", "usemut", {"params": [mut, ("ds", "mid", {"params": [mut]})]}), mut],
+              [("M", [[2, 1], [1, 2], {"rows": [[1], [2]]}]), ("ZZ", [ABSENT, 1])]))
     three = ("ds", "three", {"params": [inner, mid2, ("ds", "leaf3", {"params": [("opt", "C", ("val", 0))]})]})
     S.append(("three-deps", [three], [A2, ("C", [ABSENT, 1])]))
     return S
